@@ -127,50 +127,49 @@ Next ==
        \/ PrevId(id, LSB) >= 0 /\ id' = PrevId(id, LSB) /\ lev' = Lev /\ Aux
 
 (***************************************************************************)
-(* One-level obligations (about id at level Lev).                          *)
+(* One-level obligations (about id at level Lev).  Every law is a          *)
+(* conjunction of separate implications: Apalache checks each top-level    *)
+(* conjunct with its own (small) SMT query.                                *)
 (***************************************************************************)
 \* lsb arithmetic: LSB divides id with an odd quotient (so LSB = id & -id: the largest power of two
 \* dividing id), the id is below 2^64, its position has the documented layout, IsLeaf/IsFace agree
 LsbLaw ==
-    AtStart =>
-        /\ id % LSB = 0 /\ (id \div LSB) % 2 = 1
-        /\ id < P64 /\ id >= LSB
-        /\ Pos(id) % (2 * LSB) = LSB /\ id = Face(id) * P61 + Pos(id)
-        /\ (IsLeaf(id) <=> Lev = 30) /\ (IsFace(id) <=> Lev = 0)
+    /\ AtStart => (id % LSB = 0 /\ (id \div LSB) % 2 = 1)
+    /\ AtStart => (id < P64 /\ id >= LSB)
+    /\ AtStart => (Pos(id) % (2 * LSB) = LSB /\ id = Face(id) * P61 + Pos(id))
+    /\ AtStart => ((IsLeaf(id) <=> Lev = 30) /\ (IsFace(id) <=> Lev = 0))
 \* leaf range: both ends are leaves of the same face, the id is the middle, LSB leaf ids inside
 RangeLaw ==
-    AtStart =>
-        /\ Valid(RangeMin(id, LSB), 1) /\ Valid(RangeMax(id, LSB), 1)
-        /\ Face(RangeMin(id, LSB)) = Face(id) /\ Face(RangeMax(id, LSB)) = Face(id)
-        /\ RangeMin(id, LSB) <= id /\ id <= RangeMax(id, LSB)
-        /\ RangeMax(id, LSB) - RangeMin(id, LSB) = 2 * (LSB - 1)
-        /\ RangeMin(id, LSB) = ChildBeginAtLevel(id, LSB, 1)
-        /\ RangeMax(id, LSB) + 2 = ChildEndAtLevel(id, LSB, 1)
+    /\ AtStart => (Valid(RangeMin(id, LSB), 1) /\ Valid(RangeMax(id, LSB), 1))
+    /\ AtStart => (Face(RangeMin(id, LSB)) = Face(id) /\ Face(RangeMax(id, LSB)) = Face(id))
+    /\ AtStart => (RangeMin(id, LSB) <= id /\ id <= RangeMax(id, LSB))
+    /\ AtStart => (RangeMax(id, LSB) - RangeMin(id, LSB) = 2 * (LSB - 1))
+    /\ AtStart => (RangeMin(id, LSB) = ChildBeginAtLevel(id, LSB, 1))
+    /\ AtStart => (RangeMax(id, LSB) + 2 = ChildEndAtLevel(id, LSB, 1))
 \* children: valid cells of the next level that partition [RangeMin, RangeMax] in order
+HasChild == AtStart /\ Lev < 30
+Ch == Child(id, LSB, k)
 ChildLaw ==
-    (AtStart /\ Lev < 30) =>
-        LET ch == Child(id, LSB, k) IN
-        /\ Valid(ch, ChildLSB)
-        /\ Parent(ch, LSB) = id /\ ImmediateParent(ch, ChildLSB) = id
-        /\ RangeMin(id, LSB) <= RangeMin(ch, ChildLSB) /\ RangeMax(ch, ChildLSB) <= RangeMax(id, LSB)
-        /\ RangeMin(Child(id, LSB, 0), ChildLSB) = RangeMin(id, LSB)
-        /\ RangeMax(Child(id, LSB, 3), ChildLSB) = RangeMax(id, LSB)
-        /\ (k < 3 => RangeMax(ch, ChildLSB) + 2 = RangeMin(Child(id, LSB, k + 1), ChildLSB))
-        /\ (k < 3 => NextId(ch, ChildLSB) = Child(id, LSB, k + 1))
-        /\ ChildBegin(id, LSB) = Child(id, LSB, 0)
-        /\ ChildEnd(id, LSB) = NextId(Child(id, LSB, 3), ChildLSB)
-        /\ ChildBegin(id, LSB) = ChildBeginAtLevel(id, LSB, ChildLSB)
-        /\ ChildEnd(id, LSB) = ChildEndAtLevel(id, LSB, ChildLSB)
-        /\ Contains(id, LSB, ch) /\ ~Contains(ch, ChildLSB, id)
-        /\ ch < P64 /\ ChildEnd(id, LSB) < P64
+    /\ HasChild => Valid(Ch, ChildLSB)
+    /\ HasChild => (Parent(Ch, LSB) = id /\ ImmediateParent(Ch, ChildLSB) = id)
+    /\ HasChild => (RangeMin(id, LSB) <= RangeMin(Ch, ChildLSB) /\ RangeMax(Ch, ChildLSB) <= RangeMax(id, LSB))
+    /\ HasChild => RangeMin(Child(id, LSB, 0), ChildLSB) = RangeMin(id, LSB)
+    /\ HasChild => RangeMax(Child(id, LSB, 3), ChildLSB) = RangeMax(id, LSB)
+    /\ (HasChild /\ k < 3) => RangeMax(Ch, ChildLSB) + 2 = RangeMin(Child(id, LSB, k + 1), ChildLSB)
+    /\ (HasChild /\ k < 3) => NextId(Ch, ChildLSB) = Child(id, LSB, k + 1)
+    /\ HasChild => ChildBegin(id, LSB) = Child(id, LSB, 0)
+    /\ HasChild => ChildEnd(id, LSB) = NextId(Child(id, LSB, 3), ChildLSB)
+    /\ HasChild => ChildBegin(id, LSB) = ChildBeginAtLevel(id, LSB, ChildLSB)
+    /\ HasChild => ChildEnd(id, LSB) = ChildEndAtLevel(id, LSB, ChildLSB)
+    /\ HasChild => (Contains(id, LSB, Ch) /\ ~Contains(Ch, ChildLSB, id))
+    /\ HasChild => (Ch < P64 /\ ChildEnd(id, LSB) < P64)
 \* moving along the curve at one level
 NextLaw ==
-    AtStart =>
-        /\ RangeMin(NextId(id, LSB), LSB) = RangeMax(id, LSB) + 2
-        /\ RangeMax(PrevId(id, LSB), LSB) + 2 = RangeMin(id, LSB)
-        /\ (NextId(id, LSB) < NumFaces * P61 => Valid(NextId(id, LSB), LSB))
-        /\ (PrevId(id, LSB) >= 0 => Valid(PrevId(id, LSB), LSB))
-        /\ NextId(id, LSB) < P64
+    /\ AtStart => RangeMin(NextId(id, LSB), LSB) = RangeMax(id, LSB) + 2
+    /\ AtStart => RangeMax(PrevId(id, LSB), LSB) + 2 = RangeMin(id, LSB)
+    /\ (AtStart /\ NextId(id, LSB) < NumFaces * P61) => Valid(NextId(id, LSB), LSB)
+    /\ (AtStart /\ PrevId(id, LSB) >= 0) => Valid(PrevId(id, LSB), LSB)
+    /\ AtStart => NextId(id, LSB) < P64
 OneLevelLaws == LsbLaw /\ RangeLaw /\ ChildLaw /\ NextLaw
 
 (***************************************************************************)
@@ -179,24 +178,25 @@ OneLevelLaws == LsbLaw /\ RangeLaw /\ ChildLaw /\ NextLaw
 \* the level of a valid id is unique: no id is valid at two levels
 LevelUniqueLaw == (AtStart /\ OLev # Lev) => ~Valid(id, OLSB)
 \* ancestors: Parent(OLev) is the valid cell of that level whose range contains the id's range
+HasAnc == AtStart /\ OLev <= Lev
+Anc == Parent(id, OLSB)
 ParentLaw ==
-    (AtStart /\ OLev <= Lev) =>
-        LET p == Parent(id, OLSB) IN
-        /\ Valid(p, OLSB)
-        /\ RangeMin(p, OLSB) <= RangeMin(id, LSB) /\ RangeMax(id, LSB) <= RangeMax(p, OLSB)
-        /\ Contains(p, OLSB, id)
-        /\ (OLev = Lev => p = id)
-        /\ (OLev + 1 = Lev => ImmediateParent(id, LSB) = p)
-        /\ Face(p) = Face(id)
-        /\ (OLev < Lev => \E j \in 0..3 : Contains(Child(p, OLSB, j), OLSB \div 4, id))
+    /\ HasAnc => Valid(Anc, OLSB)
+    /\ HasAnc => (RangeMin(Anc, OLSB) <= RangeMin(id, LSB) /\ RangeMax(id, LSB) <= RangeMax(Anc, OLSB))
+    /\ HasAnc => Contains(Anc, OLSB, id)
+    /\ (HasAnc /\ OLev = Lev) => Anc = id
+    /\ (HasAnc /\ OLev + 1 = Lev) => ImmediateParent(id, LSB) = Anc
+    /\ HasAnc => Face(Anc) = Face(id)
+    /\ (HasAnc /\ OLev < Lev) => \E j \in 0..3 : Contains(Child(Anc, OLSB, j), OLSB \div 4, id)
 \* ChildBeginAtLevel / ChildEndAtLevel for the level OLev >= Lev
+HasDesc == AtStart /\ OLev >= Lev
+First == ChildBeginAtLevel(id, LSB, OLSB)
+End == ChildEndAtLevel(id, LSB, OLSB)
 LevelRangeLaw ==
-    (AtStart /\ OLev >= Lev) =>
-        LET first == ChildBeginAtLevel(id, LSB, OLSB)  end == ChildEndAtLevel(id, LSB, OLSB) IN
-        /\ Valid(first, OLSB) /\ RangeMin(first, OLSB) = RangeMin(id, LSB)
-        /\ end - first = 2 * LSB
-        /\ RangeMax(PrevId(end, OLSB), OLSB) = RangeMax(id, LSB)
-        /\ Parent(first, LSB) = id /\ Parent(PrevId(end, OLSB), LSB) = id
+    /\ HasDesc => (Valid(First, OLSB) /\ RangeMin(First, OLSB) = RangeMin(id, LSB))
+    /\ HasDesc => End - First = 2 * LSB
+    /\ HasDesc => RangeMax(PrevId(End, OLSB), OLSB) = RangeMax(id, LSB)
+    /\ HasDesc => (Parent(First, LSB) = id /\ Parent(PrevId(End, OLSB), LSB) = id)
 \* Contains <=> inclusion of leaf ranges <=> "is the ancestor at its level"; cells are nested or disjoint
 \* (separate implications: Apalache checks every top-level conjunct with its own SMT query)
 InclLaw ==
